@@ -81,7 +81,9 @@ CHECKS.update({
              "line: an accepted wheel has a common version; exists_cut_of_compatible: for any order, a common cut), "
              "wheelSpec_reads (the specifier built for the tag pair admits a final interpreter version exactly when PEP 425's "
              "reading of the tag does: cpXY = release starts with X.Y, pyXY = same major and >= X.Y, abi3 = >= X.Y; via C04's leaf "
-             "theorem for >= and ==V.*), score_shape. The model (Model/Tags.lean, string slicing "
+             "theorem for >= and ==V.*), score_shape; EnvSpec.compatibility itself: maxScore_spec, compatibility_score (the best "
+             "loadable python x abi combination and the best accepted platform tag), compatibility_none, compatibility_perm "
+             "(the verdict depends on the SETS of tags only). The model (Model/Tags.lean, string slicing "
              "included) is compared with EnvSpec._evaluate_python on the complete python x abi tag universe for majors 2-3 / "
              "minors 0-20 under every implementation setting and 16 (quick) / 120 (thorough) requires_python shapes; an "
              "independent PEP 425/3149/703 rule oracle decides each case on the real code.",
@@ -101,7 +103,11 @@ CHECKS.update({
              "widen_keeps_cuts / widen_or_keeps (the same for ANY order of bounds, PEP 440 included: widening by `|`, or to any "
              "specifier admitting at least the same cuts, never loses a wheel), "
              "and_isEmpty_comm (the emptiness test is operand-order independent, structurally), compare_refl, "
-             "compare_incompatible_symm, compare_not_higher_both, manylinux_nested (LOWER_OR_EQUAL targets have nested tag sets). "
+             "compare_incompatible_symm, compare_not_higher_both, manylinux_nested, platCompare_nested / compare_nested "
+             "(LOWER_OR_EQUAL / HIGHER between ANY two platforms of the model - every family, release and architecture, the "
+             "unordered BSD / generic classes included - implies nested tag sets, under the documented release lines: "
+             "SameLine; nested_needs_sameLine shows the hypothesis is needed), compatibility_widen (through the public "
+             "function: a wider requires_python keeps every accepted wheel, same platform score, python score not worse). "
              "The model of EnvSpec.compare/compatibility is compared with the real code on all ordered pairs of a 60-spec "
              "(quick) / 250-spec grid; the laws, the nestedness and the widening claim are evaluated on the real objects.",
         technique="Lean 4 proof + pairwise grid correspondence",
@@ -152,10 +158,17 @@ CHECKS.update({
              "MarkerUnion.__str__, re-rendered atoms incl. literal-on-the-left, grouped ==/!= atoms) evaluates, under the PEP 508 "
              "reference evaluation, to the marker's meaning; C07.reparse_sound - whatever _build_markers rebuilds from that list "
              "(through all parse-time merging; C03.build_sound) means what the marker means; str_empty_any. For every printable "
-             "marker over good atoms, every environment, every fuel covering the nesting depth. Outside the model, compared on "
-             "every run: that packaging's parser reads str(m) as exactly that token list (stream C07.tokens), acceptance by "
-             "parse_marker and packaging, and evaluate() of the re-parsed marker on literal-derived environments.",
-        technique="Lean 4 proof at token level + differential comparison of the text->token step and of the full round trip",
+             "marker over good atoms, every environment, every fuel covering the nesting depth. The text level, down to characters: "
+             "read_quote (for EVERY string, what _quote writes is one QUOTED_STRING token that the Python-literal reader turns "
+             "back into the value), atom_text (every atom over the environment-variable names, any operator / operand order / "
+             "value, is read by _parse_marker_item as its own triple), nested_text (units joined by and/or with parentheses to "
+             "any depth), toSeq_spec / text_roundtrip_printable (for every printable marker the model of packaging's parser "
+             "reads str(m) as exactly items m) and str_reparse_final (characters -> parser -> _build_markers evaluates like m: "
+             "C07 end to end inside the model). The ~100-line model of packaging's tokenizer / parser / ast.literal_eval "
+             "(Model/Quote.lean, Model/MarkerText.lean) is compared with packaging's own code on every run (streams C07.text, "
+             "C07.atom, C07.read, C07.quote), as are acceptance by parse_marker and packaging and evaluate() of the re-parsed "
+             "marker on literal-derived environments.",
+        technique="Lean 4 proof from characters to meaning over a hand-written model of _quote, packaging's marker parser and _build_markers + differential correspondence of each of the three with the real code",
         design_ref="0.2, 6/C07"),
     "C10": dict(
         text="Lean: C10.call_ok / history_transparent / probe_independent - in a model where every atom carries the cached "
